@@ -35,6 +35,7 @@ type Scenario struct {
 	Options Options  `json:"options"`
 	Notes   []string `json:"notes,omitempty"` // features planted by the generator
 	Webhook string   `json:"webhook_body,omitempty"`
+	Reread  bool     `json:"reread,omitempty"` // directed scenarios: persist and re-read the session at every wait
 }
 
 func (s *Scenario) AssetsJSON() []byte  { b, _ := json.Marshal(s.Assets); return b }
@@ -216,12 +217,16 @@ func (g *scenGen) assets() {
 	a["optins"] = g.optins
 	a["resthooks"] = g.resthooks
 	a["templates"] = g.tpls
+	// several locations of one level answer to the same name or alias (the first in asset order is the one used),
+	// and a location may list its own name as an alias
 	a["locations"] = []M{{"name": "Rwanda", "aliases": []string{"Ruanda"}, "children": []M{
-		{"name": "Kigali City", "aliases": []string{"Kigali", "Kigari"}, "children": []M{
-			{"name": "Gasabo", "children": []M{{"name": "Gisozi"}, {"name": "Ndera"}}},
-			{"name": "Nyarugenge", "children": []M{}},
+		{"name": "Kigali City", "aliases": []string{"Kigali", "Kigari", "Capital", "Kigali City"}, "children": []M{
+			{"name": "Gasabo", "aliases": []string{"Central"}, "children": []M{{"name": "Gisozi", "aliases": []string{"Hill"}}, {"name": "Ndera", "aliases": []string{"Hill"}}}},
+			{"name": "Nyarugenge", "aliases": []string{"Central", "Kigali"}, "children": []M{{"name": "Gisozi"}}},
 		}},
-		{"name": "Eastern Province", "children": []M{{"name": "Gatsibo", "children": []M{{"name": "Kageyo"}}}}},
+		{"name": "Eastern Province", "aliases": []string{"Capital", "East"}, "children": []M{{"name": "Gatsibo", "aliases": []string{"Central"}, "children": []M{{"name": "Kageyo", "aliases": []string{"Hill"}}}}}},
+		{"name": "Northern Province", "aliases": []string{"Capital", "Kigali"}, "children": []M{}},
+		{"name": "Southern Province", "aliases": []string{"capital"}, "children": []M{}},
 	}}}
 	g.s.Assets = a
 }
@@ -257,7 +262,8 @@ var safeTemplates = []string{
 	"@results.q1", "@results.q1.input", "@(results.q1.extra)", "@results.intent.extra", "@(has_text(input.text).match)", "@run.path", "@(count(run.path))", "@run.created_on", "@run.exited_on",
 }
 
-var webhookTemplates = []string{"@webhook", "@webhook.json", "@(json(webhook))", "@webhook.status", "@legacy_extra", "@(default(webhook.json.results[0].state, \"x\"))", "@results.webhook.extra"}
+var webhookTemplates = []string{"@webhook", "@webhook.json", "@(json(webhook))", "@webhook.status", "@legacy_extra", "@(default(webhook.json.results[0].state, \"x\"))", "@results.webhook.extra",
+	"@(webhook.json.vip)", "@(webhook.json[0])", "@trigger.params.vip", "@(trigger.params.blocked)", "@(trigger.params.flags[0])", "@(if(trigger.params.vip, \"vip\", \"std\"))", "@(default(webhook.json, \"nothing\"))"}
 
 var envSensitiveTemplates = []string{
 	"@(format_datetime(contact.created_on)) @(format_number(1234.5))", "@fields.joined @(format_date(fields.joined))", "@(format_time(contact.created_on)) @(1234.5)", "@(format(contact.created_on)) @(format(1234567.891))",
@@ -636,8 +642,8 @@ var caseTests = []testSpec{
 	{"has_intent", []func(*fw.Rand) string{pickS("book_flight", "book_hotel", "x"), pickS("0.4", "0.9", "x")}},
 	{"has_top_intent", []func(*fw.Rand) string{pickS("book_flight", "book_hotel"), pickS("0.4", "0.9")}},
 	{"has_state", nil},
-	{"has_district", []func(*fw.Rand) string{pickS("Kigali City", "Kigali", "Nowhere", "@fields.state")}},
-	{"has_ward", []func(*fw.Rand) string{pickS("Gasabo", "Nyarugenge"), pickS("Kigali City", "Kigali")}},
+	{"has_district", []func(*fw.Rand) string{pickS("Kigali City", "Kigali", "Nowhere", "@fields.state", "Capital")}},
+	{"has_ward", []func(*fw.Rand) string{pickS("Gasabo", "Nyarugenge", "Central"), pickS("Kigali City", "Kigali", "Capital")}},
 	{"has_error", nil},
 	{"has_value", nil},
 }
@@ -799,7 +805,7 @@ func (g *scenGen) action(ftype string, flowIdx int, loc M) M {
 			f = M{"key": "gone", "name": "Gone"}
 		}
 		a["field"] = f
-		a["value"] = fw.Pick(r, []string{"", "23", "17", "male", "female", "bobby", "@input.text", "@(fields.age + 1)", "2018-05-05", "2017-12-02T10:00:00Z", "Kigali City", "Kigali", "Gasabo", "Gisozi", "Rwanda > Kigali City", "@(1/0)", g.tpl(), "  23  ", "23.0", "abc 23 def"})
+		a["value"] = fw.Pick(r, []string{"", "23", "17", "male", "female", "bobby", "@input.text", "@(fields.age + 1)", "2018-05-05", "2017-12-02T10:00:00Z", "Kigali City", "Kigali", "Gasabo", "Gisozi", "Rwanda > Kigali City", "@(1/0)", g.tpl(), "  23  ", "23.0", "abc 23 def", "Capital", "Central", "Hill"})
 	case "set_contact_status":
 		a["status"] = fw.Pick(r, []string{"active", "blocked", "stopped", "archived"})
 	case "set_contact_timezone":
@@ -853,7 +859,9 @@ func (g *scenGen) action(ftype string, flowIdx int, loc M) M {
 		}
 	case "call_webhook":
 		a["method"] = fw.Pick(r, []string{"GET", "POST"})
-		a["url"] = fw.Pick(r, []string{"http://localhost/?cmd=success", "http://localhost/?cmd=unavailable", "http://localhost/?cmd=badjson", "http://localhost/@(1/0)", "http://localhost/?x=@contact.name"})
+		a["url"] = fw.Pick(r, []string{"http://localhost/?cmd=success", "http://localhost/?cmd=unavailable", "http://localhost/?cmd=badjson", "http://localhost/@(1/0)", "http://localhost/?x=@contact.name",
+			// bodies that are a bare JSON value rather than an object
+			"http://localhost/?cmd=true", "http://localhost/?cmd=false", "http://localhost/?cmd=null", "http://localhost/?cmd=number", "http://localhost/?cmd=string", "http://localhost/?cmd=array", "http://localhost/?cmd=flags", "http://localhost/?cmd=empty"})
 		if r.Chance(0.5) {
 			a["headers"] = M{"Accept": "application/json", "X-Name": "@contact.name", "X-Age": "@fields.age"}
 		}
@@ -894,15 +902,7 @@ func (g *scenGen) action(ftype string, flowIdx int, loc M) M {
 		if r.Chance(0.4) {
 			a["contact_query"] = fw.Pick(r, []string{"name = @input.text", "age > @fields.age", "gender = \"@contact.fields.gender\"", "name = @contact.name OR tel = @urns.tel"})
 		}
-		if r.Chance(0.3) {
-			a["urns"] = []string{"tel:+12065550000"}
-		}
-		if r.Chance(0.3) {
-			a["legacy_vars"] = []string{fw.Pick(r, []string{"@contact.uuid", "Testers", "@input.text", "+12065551111"})}
-		}
-		if r.Chance(0.3) {
-			a["contacts"] = []M{{"uuid": UUID4(r), "name": "Eve"}}
-		}
+		g.recipients(a)
 	case "start_session":
 		a["flow"] = fw.Pick(r, g.flowRefs)
 		if r.Chance(0.5) {
@@ -914,9 +914,7 @@ func (g *scenGen) action(ftype string, flowIdx int, loc M) M {
 		if r.Chance(0.3) {
 			a["create_contact"] = true
 		}
-		if r.Chance(0.3) {
-			a["contacts"] = []M{{"uuid": UUID4(r), "name": "Eve"}}
-		}
+		g.recipients(a)
 		a["exclusions"] = M{}
 		if r.Chance(0.3) {
 			a["exclusions"] = M{"in_a_flow": true}
@@ -1076,7 +1074,7 @@ func (g *scenGen) env() M {
 	return e
 }
 
-var msgTexts = []string{"hi there", "yes", "no", "red", "23", "17", "I am 23 years old", "2020-01-01", "tomorrow at 10:30", "+12065551212", "foo@bar.com", "Kigali", "book a flight", "", "YES please", "blue red", "  yes  ", "日本語", "😀", "1.234,50", "1 234,50", "1,234.50", "I have 1.234,5 cows"}
+var msgTexts = []string{"hi there", "yes", "no", "red", "23", "17", "I am 23 years old", "2020-01-01", "tomorrow at 10:30", "+12065551212", "foo@bar.com", "Kigali", "book a flight", "", "YES please", "blue red", "  yes  ", "日本語", "😀", "1.234,50", "1 234,50", "1,234.50", "I have 1.234,5 cows", "Capital", "Central", "Hill", "capital", "Kigali"}
 
 func (g *scenGen) msg(urnsOfContact []string) M {
 	r := g.r
@@ -1153,7 +1151,7 @@ func (g *scenGen) trigger() {
 		t["environment"] = g.env()
 	}
 	if r.Chance(0.4) {
-		t["params"] = fw.Pick(r, []M{{"source": "website", "address": M{"state": "WA"}}, {"n": 1}, {}})
+		t["params"] = fw.Pick(r, []M{{"source": "website", "address": M{"state": "WA"}}, {"n": 1}, {}, {"vip": true, "blocked": false, "ref": nil}, {"flags": []any{true, false}, "vip": false}})
 	}
 	if g.o.Batch && r.Chance(0.3) {
 		t["batch"] = true
@@ -1310,5 +1308,35 @@ func (g *scenGen) options() {
 		MaxTemplateChars: fw.Pick(r, []int{0, 1, 2, 3, 4, 10, 100, 10000}),
 		MaxFieldChars:    fw.Pick(r, []int{0, 1, 2, 5, 640}),
 		MaxResultChars:   fw.Pick(r, []int{0, 1, 2, 5, 640}),
+	}
+}
+
+// recipients fills the fixed and evaluated recipient lists of send_broadcast / start_session: lists of every small
+// length (the engine appends the evaluated recipients to copies of the fixed lists).
+func (g *scenGen) recipients(a M) {
+	r := g.r
+	if r.Chance(0.4) {
+		n := r.Weighted([]int{0, 4, 2, 3, 1, 2, 1, 1})
+		urns := make([]string, n)
+		for i := range urns {
+			urns[i] = fmt.Sprintf("tel:+1206555%04d", i)
+		}
+		a["urns"] = urns
+	}
+	if r.Chance(0.4) {
+		n := r.Weighted([]int{0, 4, 2, 3, 1, 2, 1, 1})
+		cs := make([]M, n)
+		for i := range cs {
+			cs[i] = M{"uuid": UUID4(r), "name": fmt.Sprintf("Eve %d", i)}
+		}
+		a["contacts"] = cs
+	}
+	if r.Chance(0.4) {
+		n := r.Weighted([]int{0, 5, 3, 1})
+		vars := make([]string, n)
+		for i := range vars {
+			vars[i] = fw.Pick(r, []string{"@contact.uuid", "Testers", "@input.text", "+12065551111", "@contact.urns.tel", "@(\"tel:+1\" & text(contact.id + 2065550000))", "@contact.name", "@fields.age"})
+		}
+		a["legacy_vars"] = vars
 	}
 }
